@@ -814,6 +814,10 @@ func c11KindInventory(r *Repo, w *Lean) error {
 	w.Line("/-- kinds whose registering file carries a `//go:build` constraint (not part of a default build). -/")
 	w.Line("def filterKindBuildTag : List (String × String) := [%s]", strings.Join(tags, ", "))
 
+	if err := c11CloseHandleFacts(r, w, kinds); err != nil {
+		return err
+	}
+
 	// ---- object kinds
 	odirs, err := os.ReadDir(filepath.Join(r.Root, "pkg/object"))
 	if err != nil {
@@ -867,4 +871,492 @@ func c11KindInventory(r *Repo, w *Lean) error {
 	w.Line("/-- types registered with `supervisor.Register(&T{})` under pkg/object (sorted). -/")
 	w.Line("def objectKinds : List String := %s", StrList(objs))
 	return nil
+}
+
+// ---------------------------------------------------------------------------
+// Close / Handle interference per filter kind (extension auth11, round 2; AUDIT P1 item 4).
+//
+// For the type T a kind's CreateInstance builds (package-local analysis, by name, best effort —
+// what it over-approximates is stated below; it never looks into other packages):
+//
+//   handleReads(T)  = receiver fields mentioned in T.Handle and, transitively, in the same-package
+//                     functions / methods of T it calls (func literals included);
+//   closeTouches(T) = least set W with
+//       (1) fields of the receiver that T.Close (and its same-package callees) assigns, passes to
+//           the builtin close(), calls as a function value (`hl.cancel()`), or calls a method on
+//           (`k.producer.Close()` — any method call on a field counts as touching it);
+//       (2) fields assigned together with a touched field by one multi-value call
+//           (`hl.stopCtx, hl.cancel = context.WithCancel(…)`);
+//       (3) for every function / method / func literal of the package that WAITS on a touched field
+//           (`<-k.done`, `<-hl.stopCtx.Done()`): the fields touched (as in (1), also through local
+//           aliases `producer := …; k.producer = producer`) by the code that runs after the wait —
+//           the body of the select clause when the wait is a `case`, else the rest of the function.
+//
+// closeWritesHandleReads(kind) = closeTouches ∩ handleReads. Empty ⇒ nothing Close (or a goroutine
+// it wakes) changes is ever looked at by Handle.
+
+type c11FnInfo struct {
+	name string
+	recv string // receiver variable name ("" for plain functions)
+	typ  string // receiver type
+	body *ast.BlockStmt
+}
+
+func c11RecvField(e ast.Expr, recv string) string {
+	// e is rooted at `recv.f…` : returns f
+	for {
+		switch t := e.(type) {
+		case *ast.SelectorExpr:
+			if id, ok := t.X.(*ast.Ident); ok && id.Name == recv {
+				return t.Sel.Name
+			}
+			e = t.X
+		case *ast.IndexExpr:
+			e = t.X
+		case *ast.StarExpr:
+			e = t.X
+		case *ast.ParenExpr:
+			e = t.X
+		case *ast.CallExpr:
+			e = t.Fun
+		case *ast.TypeAssertExpr:
+			e = t.X
+		default:
+			return ""
+		}
+	}
+}
+
+func c11CloseHandleFacts(r *Repo, w *Lean, kinds []c11Kind) error {
+	var reads, touches, inter []string
+	for _, k := range kinds {
+		dir := "pkg/filters/" + k.pkg
+		gofiles, err := c11PkgFiles(r, dir)
+		if err != nil {
+			return err
+		}
+		var fns []c11FnInfo
+		fields := map[string]bool{}
+		// T and the same-package struct types it embeds (their methods are promoted: builder.Builder)
+		types := map[string]bool{k.typ: true}
+		for _, rel := range gofiles {
+			f, err := r.File(rel)
+			if err != nil {
+				return err
+			}
+			ast.Inspect(f, func(n ast.Node) bool {
+				ts, ok := n.(*ast.TypeSpec)
+				if !ok || ts.Name.Name != k.typ {
+					return true
+				}
+				if st, ok := ts.Type.(*ast.StructType); ok {
+					for _, fl := range st.Fields.List {
+						if len(fl.Names) == 0 {
+							if tn := c11TypeName(fl.Type); tn != "" && !strings.Contains(tn, ".") {
+								types[tn] = true
+							}
+						}
+					}
+				}
+				return true
+			})
+		}
+		for _, rel := range gofiles {
+			f, err := r.File(rel)
+			if err != nil {
+				return err
+			}
+			for fn := range c11StructFields(f, types) {
+				fields[fn] = true
+			}
+			for _, dd := range f.Decls {
+				fd, ok := dd.(*ast.FuncDecl)
+				if !ok || fd.Body == nil {
+					continue
+				}
+				fi := c11FnInfo{name: fd.Name.Name, body: fd.Body}
+				if fd.Recv != nil && len(fd.Recv.List) == 1 {
+					fi.typ = recvName(fd.Recv.List[0].Type)
+					if len(fd.Recv.List[0].Names) == 1 {
+						fi.recv = fd.Recv.List[0].Names[0].Name
+					}
+				}
+				fns = append(fns, fi)
+			}
+		}
+		find := func(name string, method bool) *c11FnInfo {
+			for i := range fns {
+				if fns[i].name == name && types[fns[i].typ] == method && (method || fns[i].typ == "") {
+					return &fns[i]
+				}
+			}
+			return nil
+		}
+		// reachable functions from a method of T (same package, by name)
+		reach := func(start string) []*c11FnInfo {
+			var out []*c11FnInfo
+			seen := map[*c11FnInfo]bool{}
+			var visit func(fi *c11FnInfo)
+			visit = func(fi *c11FnInfo) {
+				if fi == nil || seen[fi] {
+					return
+				}
+				seen[fi] = true
+				out = append(out, fi)
+				ast.Inspect(fi.body, func(n ast.Node) bool {
+					ce, ok := n.(*ast.CallExpr)
+					if !ok {
+						return true
+					}
+					switch t := ce.Fun.(type) {
+					case *ast.Ident:
+						visit(find(t.Name, false))
+					case *ast.SelectorExpr:
+						if id, ok := t.X.(*ast.Ident); ok && fi.recv != "" && id.Name == fi.recv {
+							visit(find(t.Sel.Name, true))
+						}
+					}
+					return true
+				})
+			}
+			visit(find(start, true))
+			return out
+		}
+		// ---- handleReads
+		hr := map[string]bool{}
+		hfns := reach("Handle")
+		if len(hfns) == 0 {
+			return fmt.Errorf("%s: %s.Handle not found", dir, k.typ)
+		}
+		for _, fi := range hfns {
+			if fi.recv == "" {
+				continue
+			}
+			ast.Inspect(fi.body, func(n ast.Node) bool {
+				if se, ok := n.(*ast.SelectorExpr); ok {
+					if id, ok := se.X.(*ast.Ident); ok && id.Name == fi.recv && fields[se.Sel.Name] {
+						hr[se.Sel.Name] = true
+					}
+				}
+				return true
+			})
+		}
+		// ---- touched fields of a node (assign / close() / call of a func-valued field / method call on a field)
+		touchedIn := func(n ast.Node, recv string, alias map[string]string) map[string]bool {
+			out := map[string]bool{}
+			fieldOf := func(e ast.Expr) string {
+				if f := c11RecvField(e, recv); f != "" && fields[f] {
+					return f
+				}
+				if root := c11RootIdent(e); root != nil {
+					if f, ok := alias[root.Name]; ok {
+						return f
+					}
+				}
+				return ""
+			}
+			if n == nil {
+				return out
+			}
+			ast.Inspect(n, func(x ast.Node) bool {
+				switch t := x.(type) {
+				case *ast.AssignStmt:
+					if t.Tok == token.DEFINE {
+						return true
+					}
+					for _, l := range t.Lhs {
+						if _, plain := l.(*ast.Ident); plain {
+							continue
+						}
+						if f := fieldOf(l); f != "" {
+							out[f] = true
+						}
+					}
+				case *ast.IncDecStmt:
+					if f := fieldOf(t.X); f != "" {
+						out[f] = true
+					}
+				case *ast.CallExpr:
+					if id, ok := t.Fun.(*ast.Ident); ok && id.Name == "close" && len(t.Args) == 1 {
+						if f := fieldOf(t.Args[0]); f != "" {
+							out[f] = true
+						}
+					}
+					if se, ok := t.Fun.(*ast.SelectorExpr); ok {
+						// recv.f(...) : call of a func-valued field; recv.f.M(...) / alias.M(...): method call on a field
+						if id, ok := se.X.(*ast.Ident); ok && id.Name == recv {
+							if fields[se.Sel.Name] {
+								out[se.Sel.Name] = true
+							}
+						} else if f := fieldOf(se.X); f != "" {
+							out[f] = true
+						}
+					}
+				}
+				return true
+			})
+			return out
+		}
+		// local aliases of receiver fields inside one function: `x := recv.f`, `recv.f = x`
+		aliasesOf := func(fi *c11FnInfo) map[string]string {
+			al := map[string]string{}
+			if fi.recv == "" {
+				return al
+			}
+			ast.Inspect(fi.body, func(n ast.Node) bool {
+				as, ok := n.(*ast.AssignStmt)
+				if !ok || len(as.Lhs) != len(as.Rhs) {
+					return true
+				}
+				for i := range as.Lhs {
+					if id, ok := as.Rhs[i].(*ast.Ident); ok {
+						if f := c11RecvField(as.Lhs[i], fi.recv); f != "" && fields[f] {
+							if _, isSel := as.Lhs[i].(*ast.SelectorExpr); isSel {
+								al[id.Name] = f
+							}
+						}
+					}
+					if id, ok := as.Lhs[i].(*ast.Ident); ok {
+						if se, ok := as.Rhs[i].(*ast.SelectorExpr); ok {
+							if f := c11RecvField(se, fi.recv); f != "" && fields[f] && se.Sel.Name == f {
+								al[id.Name] = f
+							}
+						}
+					}
+				}
+				return true
+			})
+			return al
+		}
+		W := map[string]bool{}
+		cfns := reach("Close")
+		if len(cfns) == 0 {
+			return fmt.Errorf("%s: %s.Close not found", dir, k.typ)
+		}
+		for _, fi := range cfns {
+			for f := range touchedIn(fi.body, fi.recv, aliasesOf(fi)) {
+				W[f] = true
+			}
+		}
+		for changed := true; changed; {
+			changed = false
+			add := func(f string) {
+				if !W[f] {
+					W[f] = true
+					changed = true
+				}
+			}
+			for i := range fns {
+				fi := &fns[i]
+				if fi.recv == "" || !types[fi.typ] {
+					continue
+				}
+				al := aliasesOf(fi)
+				// (2) fields assigned together by one multi-value call
+				ast.Inspect(fi.body, func(n ast.Node) bool {
+					as, ok := n.(*ast.AssignStmt)
+					if !ok || len(as.Lhs) < 2 || len(as.Rhs) != 1 {
+						return true
+					}
+					var fs []string
+					hit := false
+					for _, l := range as.Lhs {
+						if f := c11RecvField(l, fi.recv); f != "" && fields[f] {
+							fs = append(fs, f)
+							hit = hit || W[f]
+						}
+					}
+					if hit {
+						for _, f := range fs {
+							add(f)
+						}
+					}
+					return true
+				})
+				// (3) waits on a touched field
+				waitsOn := func(e ast.Expr) bool {
+					ue, ok := e.(*ast.UnaryExpr)
+					if !ok || ue.Op != token.ARROW {
+						return false
+					}
+					f := c11RecvField(ue.X, fi.recv)
+					if f == "" {
+						if root := c11RootIdent(ue.X); root != nil {
+							f = al[root.Name]
+						}
+					}
+					return f != "" && W[f]
+				}
+				var scan func(list []ast.Stmt)
+				scan = func(list []ast.Stmt) {
+					for idx, st := range list {
+						// a bare wait: everything after it in this block runs once the field fires
+						waited := false
+						ast.Inspect(st, func(n ast.Node) bool {
+							switch t := n.(type) {
+							case *ast.CommClause:
+								comm := ast.Expr(nil)
+								switch c := t.Comm.(type) {
+								case *ast.ExprStmt:
+									comm = c.X
+								case *ast.AssignStmt:
+									if len(c.Rhs) == 1 {
+										comm = c.Rhs[0]
+									}
+								}
+								if comm != nil && waitsOn(comm) {
+									for _, b := range t.Body {
+										for f := range touchedIn(b, fi.recv, al) {
+											add(f)
+										}
+									}
+								}
+								for _, b := range t.Body {
+									scan([]ast.Stmt{b})
+								}
+								return false
+							case *ast.UnaryExpr:
+								if waitsOn(t) {
+									waited = true
+								}
+							case *ast.BlockStmt:
+								if n != st {
+									scan(t.List)
+									return false
+								}
+							}
+							return true
+						})
+						if waited {
+							for _, rest := range list[idx:] {
+								for f := range touchedIn(rest, fi.recv, al) {
+									add(f)
+								}
+							}
+						}
+					}
+				}
+				scan(fi.body.List)
+			}
+		}
+		toList := func(m map[string]bool) []string {
+			var l []string
+			for f := range m {
+				l = append(l, f)
+			}
+			sort.Strings(l)
+			return l
+		}
+		var both []string
+		for f := range W {
+			if hr[f] {
+				both = append(both, f)
+			}
+		}
+		sort.Strings(both)
+		reads = append(reads, fmt.Sprintf("(%s, %s)", Str(k.name), StrList(toList(hr))))
+		touches = append(touches, fmt.Sprintf("(%s, %s)", Str(k.name), StrList(toList(W))))
+		inter = append(inter, fmt.Sprintf("(%s, %s)", Str(k.name), StrList(both)))
+	}
+	w.Line("/-- kind ↦ receiver fields mentioned in `Handle` and its same-package callees. -/")
+	w.Line("def handleReads : List (String × List String) := [%s]", strings.Join(reads, ", "))
+	w.Line("/-- kind ↦ receiver fields `Close` (its same-package callees, and the goroutines that wait on a field it")
+	w.Line("touches) assigns, close()s, calls, or calls a method on. -/")
+	w.Line("def closeTouches : List (String × List String) := [%s]", strings.Join(touches, ", "))
+	w.Line("/-- kind ↦ closeTouches ∩ handleReads. -/")
+	w.Line("def closeWritesHandleReads : List (String × List String) := [%s]", strings.Join(inter, ", "))
+
+	// ---- the Kafka kinds' repaired shape: the send on the producer's input is guarded by a flag that
+	// Close sets (under the write lock) before it lets the producer shut down
+	var guarded []string
+	for _, k := range kinds {
+		if k.pkg != "kafka" && k.pkg != "kafkabackend" {
+			continue
+		}
+		ok, why := c11KafkaSendGuarded(r, "pkg/filters/"+k.pkg+"/kafka.go", k.typ)
+		w.Line("-- %s: %s", k.name, why)
+		guarded = append(guarded, fmt.Sprintf("(%s, %s)", Str(k.name), Bool(ok)))
+	}
+	w.Line("/-- Kafka kinds: in `Handle` every `….Input() <- msg` is preceded, in its block, by a read-lock and by")
+	w.Line("`if recv.F { return … }`, where `Close` assigns `recv.F = true` between `Lock()` and `Unlock()` before `close(recv.done)`. -/")
+	w.Line("def kafkaSendGuarded : List (String × Bool) := [%s]", strings.Join(guarded, ", "))
+	return nil
+}
+
+func c11KafkaSendGuarded(r *Repo, rel, typ string) (bool, string) {
+	hd, err := r.Func(rel, typ, "Handle")
+	if err != nil {
+		return false, err.Error()
+	}
+	cl, err := r.Func(rel, typ, "Close")
+	if err != nil {
+		return false, err.Error()
+	}
+	recvOf := func(fd *ast.FuncDecl) string {
+		if len(fd.Recv.List[0].Names) == 1 {
+			return fd.Recv.List[0].Names[0].Name
+		}
+		return ""
+	}
+	// Close: flags assigned true while locked, before close(recv.done)
+	cr := recvOf(cl)
+	flags := map[string]bool{}
+	locked, closedDone := false, false
+	for _, st := range cl.Body.List {
+		src := r.Src(st)
+		switch {
+		case strings.HasPrefix(src, cr+".") && strings.HasSuffix(src, ".Lock()"):
+			locked = true
+		case strings.HasPrefix(src, cr+".") && strings.HasSuffix(src, ".Unlock()"):
+			locked = false
+		case strings.HasPrefix(src, "close("+cr+"."):
+			closedDone = true
+		default:
+			if as, ok := st.(*ast.AssignStmt); ok && as.Tok == token.ASSIGN && len(as.Lhs) == 1 && r.Src(as.Rhs[0]) == "true" && locked && !closedDone {
+				if se, ok := as.Lhs[0].(*ast.SelectorExpr); ok && r.Src(se.X) == cr {
+					flags[se.Sel.Name] = true
+				}
+			}
+		}
+	}
+	if !closedDone {
+		return false, "Close does not close(recv.done)"
+	}
+	// Handle: every send on ….Input() is guarded
+	hr := recvOf(hd)
+	sends, good := 0, 0
+	var walk func(list []ast.Stmt)
+	walk = func(list []ast.Stmt) {
+		for i, st := range list {
+			if ss, ok := st.(*ast.SendStmt); ok && strings.HasSuffix(r.Src(ss.Chan), ".Input()") {
+				sends++
+				rl, fl := false, false
+				for _, prev := range list[:i] {
+					src := r.Src(prev)
+					if strings.HasPrefix(src, hr+".") && (strings.HasSuffix(src, ".RLock()") || strings.HasSuffix(src, ".Lock()")) {
+						rl = true
+					}
+					if is, ok := prev.(*ast.IfStmt); ok && rl && is.Init == nil && is.Else == nil && len(is.Body.List) > 0 {
+						if se, ok := is.Cond.(*ast.SelectorExpr); ok && r.Src(se.X) == hr && flags[se.Sel.Name] {
+							if _, isRet := is.Body.List[len(is.Body.List)-1].(*ast.ReturnStmt); isRet {
+								fl = true
+							}
+						}
+					}
+				}
+				if rl && fl {
+					good++
+				}
+			}
+			ast.Inspect(st, func(n ast.Node) bool {
+				if b, ok := n.(*ast.BlockStmt); ok {
+					walk(b.List)
+					return false
+				}
+				return true
+			})
+		}
+	}
+	walk(hd.Body.List)
+	return sends > 0 && sends == good, fmt.Sprintf("sends on Input(): %d, guarded: %d, flags set by Close: %d", sends, good, len(flags))
 }
